@@ -743,3 +743,19 @@ def _lean_composition_lemmas(tier, seed):
 
 for _p in ("C13", "C20", "C04", "C05"):
     EXTRAS.setdefault(_p, []).append(_lean_composition_lemmas)
+
+
+def _c18_native_pairs(tier, seed):
+    from contracts.c18_keys import native_key_pairs
+    return native_key_pairs(tier, seed)
+
+
+EXTRAS.setdefault("C18", []).append(_c18_native_pairs)
+
+
+def _c14_typed_scalars(tier, seed):
+    from contracts.c14_numpy import typed_scalar_table
+    return typed_scalar_table(tier, seed)
+
+
+EXTRAS.setdefault("C14", []).append(_c14_typed_scalars)
